@@ -10,7 +10,7 @@ ASBUILT_FILE = os.path.join(core.VERIF, "spec", "asbuilt_cont.json")
 # what the current tree does (justified by the implementation-shaped trace pass: a wrong value leaves traces unexplained)
 ASBUILT = json.load(open(ASBUILT_FILE))
 REPAIRED = {"IndexCountsHeader": "TRUE", "EmptyInputWritesBlock": "FALSE", "BlockLimitPerByte": "TRUE",
-            "MagicTestInverted": "FALSE", "DictByteRoundsUp": "TRUE", "UncClearsForce": "TRUE", "ReaderChecksIndex": "TRUE"}
+            "MagicTestInverted": "FALSE", "DictByteRoundsUp": "TRUE", "UncClearsForce": "TRUE", "ReaderChecksIndex": "TRUE", "EofPaddingChecked": "TRUE"}
 # the historical defects as regressed designs: (constant, regressed value, what)
 REGRESSIONS = {
     "IndexCountsHeader": ("FALSE", "XZ index 'unpadded size' omits the block header (D5)"),
@@ -19,13 +19,14 @@ REGRESSIONS = {
     "MagicTestInverted": ("TRUE", "try_start_next_stream rejects the stream magic (D14)"),
     "DictByteRoundsUp": ("FALSE", "lzip dictionary-size byte rounds the size down (D4)"),
     "UncClearsForce": ("FALSE", "write_uncompressed leaves force_independent_chunk set (D2)"),
+    "EofPaddingChecked": ("FALSE", "stream padding of 1-3 bytes followed by the end of the input is accepted"),
 }
 
 CHECK_NAME = {0: "none", 1: "crc32", 4: "crc64", 10: "sha256"}
 CHECK_ID = {v: k for k, v in CHECK_NAME.items()}
 UNIT = 2048            # bytes per abstract unit of uncompressed data
 DICT_UNITS = 2         # dictionary = 4096 bytes
-XZV = ("IndexCountsHeader", "EmptyInputWritesBlock", "BlockLimitPerByte", "MagicTestInverted", "ReaderChecksIndex")
+XZV = ("IndexCountsHeader", "EmptyInputWritesBlock", "BlockLimitPerByte", "MagicTestInverted", "ReaderChecksIndex", "EofPaddingChecked")
 
 # filter chains by the block header size they produce (flags 1 + filter flags + crc 4, rounded up to 4)
 CHAINS = {
@@ -171,7 +172,7 @@ def xz_events(s, r):
     for x in recs:
         e = {"ev": "Rec"}
         for k, v in x.items():
-            if k in ("at", "fprops", "filters", "why", "first"):
+            if k in ("at", "fprops", "filters", "why", "first", "ctrls"):
                 continue
             e[k] = (False if v is None else v)
         ev.append(e)
@@ -1135,7 +1136,7 @@ def family_lzma2(ctx, j, quick, rnd, pool):
 
 # --------------------------------------------------------------------------- .lzma expected-size contract (C18 C03 C16)
 EXPORT_LA = r'''
-ScnA == [tag |-> "scn", exp |-> exp, calls |-> calls, cur |-> cur, state |-> state]
+ScnA == [tag |-> "scn", exp |-> exp, calls |-> calls, cur |-> cur, state |-> state, marker |-> marker, header |-> header]
 ExportA == (state # "open") => PrintT(ToJson(ScnA))
 '''
 LA_UNIT = 1500
@@ -1147,6 +1148,10 @@ def la_write_scn(sid, a, rnd):
     opt["lc"], opt["lp"], opt["pb"] = rnd.choice([(3, 0, 2), (3, 0, 2), (0, 0, 0), (4, 0, 4), (0, 4, 0), (2, 2, 1), (1, 3, 3)])   # lc + lp <= 4: what liblzma decodes
     if a["exp"] >= 0:
         opt["expected"] = a["exp"] * LA_UNIT
+    # LZMAWriter::new(use_header, use_end_marker, expected): every combination; new_use_header's own choice is header + (marker iff no size)
+    opt["header"], opt["marker"] = bool(a.get("header", True)), bool(a.get("marker", a["exp"] < 0))
+    if not opt["header"] and not opt["marker"] and a["exp"] < 0:
+        pass        # raw stream without marker and without size: decodable only because the harness passes the size to the reader
     return {"id": sid, "fam": "lzma_write", "seed": rnd.getrandbits(32), "opt": opt, "class": rnd.choice(["text", "seq", "random", "mixed", "zeros"]),
             "calls": calls, "reads": rnd.choice([[4096], [1], [7, 4096, 3], [65536]]), "abstract": a}
 
@@ -1154,7 +1159,8 @@ def la_write_scn(sid, a, rnd):
 def la_sig(s):
     exp = s["opt"].get("expected")
     total = sum(c.get("n", 0) for c in s["calls"] if c["op"] == "write")
-    return {"family": "lzma_write", "expected": "none" if exp is None else ("equal" if exp == total else ("smaller" if exp < total else "larger"))}
+    return {"family": "lzma_write", "expected": "none" if exp is None else ("equal" if exp == total else ("smaller" if exp < total else "larger")),
+            "header": s["opt"].get("header", True), "marker": s["opt"].get("marker", exp is None)}
 
 
 def judge_la_write(j, s, r, predicted=None, source="tlc-scn"):
@@ -1176,16 +1182,24 @@ def judge_la_write(j, s, r, predicted=None, source="tlc-scn"):
             if c["ok"] and exp is not None and acc != exp:
                 j.violation("C18", f".lzma writer with expected size {exp} finished after {acc} bytes", dict(base, outcome="short_finish"), rep)
     finished = r["outcome"] == "ok"
-    j.classes.add(("lzma_write", base["expected"], finished, tuple(c["ok"] for c in r["calls"])))
+    j.classes.add(("lzma_write", base["expected"], base["header"], base["marker"], finished, tuple(c["ok"] for c in r["calls"])))
     if finished:
         hdr = r["recs"][0]
-        if hdr.get("k") != "LzmaHdr" or hdr["size"] != (exp if exp is not None else -1) or (exp is not None and hdr["size"] != acc):
+        if not base["header"]:
+            pass
+        elif hdr.get("k") != "LzmaHdr" or hdr["size"] != (exp if exp is not None else -1) or (exp is not None and hdr["size"] != acc):
             j.violation("C18", f".lzma header declares {hdr.get('size')} bytes, {acc} were written (expected size {exp})", dict(base, outcome="header_size"), rep)
         rt, rf = r["rt"], r["ref"]
+        if base["header"] and not base["marker"] and exp is None:
+            # LZMAWriter::new(header, no end marker, no size): the header says "size unknown" and nothing marks the end - the caller
+            # asked for a stream no decoder can delimit (an option-contract matter, C19 / group D); only the C18 contract is judged
+            return None
         if not (rf["ok"] and rf["equal"]):
             j.violation("C03", f"liblzma does not accept / reproduce the .lzma file written by the crate: {rf['err'] or 'wrong bytes'}", dict(base, outcome="ref_reject"), rep)
         if not (rt["ok"] and rt["cmp"]["equal"]):
             j.violation("C01", f".lzma file written by the crate is not decoded back by LZMAReader: {rt['err'] or 'wrong bytes'}", dict(base, outcome="roundtrip"), rep)
+        elif exp is not None and base["marker"]:
+            pass        # declared size *and* end marker: outside the statement of C16 (the reader stops at the declared size)
         elif r["consumed"] != r["file_len"]:
             j.violation("C16", f"LZMAReader ({'declared size' if exp is not None else 'end marker'}) consumed {r['consumed']} bytes of a {r['file_len']}-byte stream",
                         dict(base, outcome="consumed"), rep)
@@ -1202,14 +1216,15 @@ JUDGES["lzma_write"] = lambda j, s, r, source="replay": judge_la_write(j, s, r, 
 
 def la_events(s, r):
     exp = s["opt"].get("expected")
-    ev = [{"ev": "Reset", "id": s["id"], "exp": -1 if exp is None else exp}]
+    ev = [{"ev": "Reset", "id": s["id"], "exp": -1 if exp is None else exp, "header": bool(s["opt"].get("header", True)),
+           "marker": bool(s["opt"].get("marker", exp is None))}]
     for c in r["calls"]:
         if c["op"] == "write":
             ev.append({"ev": "Write", "n": c["n"], "ok": bool(c["ok"])})
         elif c["op"] == "finish":
             ev.append({"ev": "Finish", "ok": bool(c["ok"])})
     fin = r["outcome"] == "ok"
-    ev.append({"ev": "End", "finished": fin, "hdr": r["recs"][0]["size"] if fin else -2, "accepted": r.get("input_len", 0)})
+    ev.append({"ev": "End", "finished": fin, "hdr": r["recs"][0].get("size", -2) if fin else -2, "accepted": r.get("input_len", 0)})
     return ev
 
 
@@ -1219,7 +1234,8 @@ LA_INV_PROP = {"Overrun": ("C18",), "ShortFinish": ("C18",), "Header": ("C18",)}
 
 def family_lzma(ctx, j, quick, rnd, pool):
     t0 = time.time()
-    consts = dict(Expecteds=[-1, 0, 2, 3] if quick else [-1, 0, 1, 2, 3, 5], WriteSizes="{0,1,2,3}", MaxCalls="4" if quick else "5")
+    consts = dict(Expecteds=[-1, 0, 2, 3] if quick else [-1, 0, 1, 2, 3, 5], WriteSizes="{0,1,2,3}", MaxCalls="3" if quick else "4",
+                  Markers="{FALSE,TRUE}", Headers="{FALSE,TRUE}")
     d, mod, cfg = core.write_model("LzmaAlone, Json", consts, invariants=["TypeOK", "HeaderExact", "NoOverrun", "ShortRefused", "ExportA"],
                                    extra_defs=EXPORT_LA)
     # a set constant with a negative member has to be defined in the wrapper module
@@ -1234,9 +1250,13 @@ def family_lzma(ctx, j, quick, rnd, pool):
     exported = printed_json(r, "scn")
     if len(exported) < 50:
         raise ToolError(f"LzmaAlone export produced only {len(exported)} behaviours")
-    cap = 300 if quick else 3000
+    cap = 400 if quick else 4000
     if len(exported) > cap:
-        exported = rnd.sample(exported, cap)
+        groups = collections.defaultdict(list)
+        for a in exported:
+            groups[(a["exp"], a["header"], a["marker"], a["state"])].append(a)
+        per = max(2, cap // len(groups))
+        exported = [a for g in groups.values() for a in (g if len(g) <= per else rnd.sample(g, per))]
     scns = [la_write_scn(f"la-{i}", a, rnd) for i, a in enumerate(exported)]
     meta = [("tlc-scn", a) for a in exported]
     # random byte-level scripts
@@ -1254,6 +1274,8 @@ def family_lzma(ctx, j, quick, rnd, pool):
         opt = {"preset": rnd.choice([0, 3, 6]), "dict": rnd.choice([4096, 1 << 16, 1 << 20])}
         if exp is not None:
             opt["expected"] = exp
+        if rnd.random() < 0.5:
+            opt["header"], opt["marker"] = rnd.choice([(True, True), (True, False), (False, True), (False, False)])
         scns.append({"id": f"la-rand-{i}", "fam": "lzma_write", "seed": rnd.getrandbits(32), "opt": opt, "class": rnd.choice(["text", "random", "seq"]),
                      "calls": calls, "reads": rnd.choice([[4096], [1], [7, 4096, 3]])})
         meta.append(("random", None))
@@ -1273,12 +1295,17 @@ def family_lzma(ctx, j, quick, rnd, pool):
         if r1.get("outcome") in ("ok", "no_file") and "calls" in r1:
             index[s["id"]] = (s, r1)
             events.extend(la_events(s, r1))
-    tc = dict(Expecteds="{0}", WriteSizes="{0}", MaxCalls="1000000")
+    tc = dict(Expecteds="{0}", WriteSizes="{0}", MaxCalls="1000000", Markers="{TRUE}", Headers="{TRUE}")
     validate_generic(ctx, j, "Trace_LzmaAlone", tc, events, index, LA_TRACE_INV, LA_INV_PROP, la_sig, "lzma_write")
     return scns, res
 
 
 # --------------------------------------------------------------------------- reading assembled inputs (C12 C16, C03 ref -> ours)
+# how the byte source hands out the input: all at once, or in pieces (a multi-member / multi-stream input that arrives in pieces
+# is the same input; headers then straddle read calls at every offset)
+SRC_CHUNKS = [[], [], [1], [2], [3], [5], [1, 2, 3, 5], [7, 1], [4096, 1]]
+
+
 def xz_part(st, rnd, src=None, unit=UNIT):
     """Abstract stream of the model -> a stream part of the `read` family (written by the crate, liblzma or the forge)."""
     src = src or rnd.choice(["ours", "ours", "ref", "forge"])
@@ -1311,7 +1338,7 @@ def concat_scn(sid, a, rnd, reads=None):
     if a["trail"] == "garbage":
         parts.append({"k": "random", "n": rnd.randint(1, 24), "seed": rnd.getrandbits(16)})
     return {"id": sid, "fam": "read", "fmt": "xz", "multi": bool(a["multi"]), "parts": parts, "seed": rnd.getrandbits(32),
-            "reads": reads or rnd.choice([[4096], [1], [7, 4096, 3], [65536], [1000]]), "abstract": a}
+            "reads": reads or rnd.choice([[4096], [1], [7, 4096, 3], [65536], [1000]]), "src_chunks": rnd.choice(SRC_CHUNKS), "abstract": a}
 
 
 def read_sig(s):
@@ -1353,9 +1380,9 @@ def judge_concat_xz(j, s, r, predicted=None, source="tlc-scn"):
             if not (r["outcome"] == "eof" and r["matched"] == nst):
                 j.violation("C12", f"XZReader (multi-stream) on {nst} concatenated streams with padding {a['pads']}: "
                                    f"{r['err'] or ('decoded %d bytes = first %d streams' % (r['out_len'], r['matched']))}", dict(base, outcome="concat"), rep)
-        if not interior_ok and r["outcome"] != "err":
-            j.violation("C12", f"XZReader (multi-stream) accepted stream padding {a['pads'][:-1]} (not a multiple of four) between streams",
-                        dict(base, outcome="bad_padding_accepted"), rep)
+        if not (interior_ok and endpad_ok) and r["outcome"] != "err":
+            j.violation("C12", f"XZReader (multi-stream) accepted stream padding {a['pads']} (not a multiple of four) "
+                               f"{'between streams' if not interior_ok else 'after the last stream'}", dict(base, outcome="bad_padding_accepted"), rep)
     else:
         if not (r["outcome"] == "eof" and r["matched"] >= 1):
             j.violation("C12", f"XZReader (single-stream) on {nst} concatenated streams: {r['err'] or ('decoded %d bytes, not a prefix of streams' % r['out_len'])}",
@@ -1366,6 +1393,9 @@ def judge_concat_xz(j, s, r, predicted=None, source="tlc-scn"):
         if r["outcome"] == "eof" and r["consumed"] != ends[0]:
             j.violation("C16", f"XZReader (single-stream) consumed {r['consumed']} bytes; the first stream ends at {ends[0]} "
                                f"(followed by {r['input_len'] - ends[0]} bytes)", dict(base, outcome="consumed"), rep)
+        elif r["outcome"] == "eof" and again_bad(r):
+            j.violation("C16", f"XZReader (single-stream) with {r['input_len'] - ends[0]} bytes behind the first stream: {again_bad(r)}",
+                        dict(base, outcome="reread"), rep)
     # forge / reference sanity: liblzma must agree that the assembled valid input is valid
     if interior_ok and endpad_ok and a["trail"] == "none" and not r["ref"]["ok"]:
         raise ToolError(f"liblzma rejects the assembled input of {s['id']} ({srcs}): {r['ref']['err']} - forge / bridge bug")
@@ -1390,11 +1420,12 @@ def family_concat_xz(ctx, j, quick, rnd, pool, want_recs=False):
                                          MaxStreams="3", Pads="{0,4,3}" if quick else "{0,4,8,2,5}")))]
     futs = [(name, pool.submit(xz_model, c, inv, 2 if quick else 6, 1500, True)) for name, c in cfgs]
     probes = []
-    val, what = REGRESSIONS["MagicTestInverted"]
-    if ASBUILT["MagicTestInverted"] != val:
-        pc = dict(cfgs[1][1])
-        pc["MagicTestInverted"] = val
-        probes.append(("MagicTestInverted", pool.submit(xz_model, pc, ["TypeOK", "XConcat"], 2, 600, False)))
+    for k in ("MagicTestInverted", "EofPaddingChecked"):
+        val, what = REGRESSIONS[k]
+        if ASBUILT[k] != val:
+            pc = dict(cfgs[1][1])
+            pc[k] = val
+            probes.append((k, pool.submit(xz_model, pc, ["TypeOK", "XConcat"], 2, 600, False)))
     scns, meta, exported = [], [], []
     for name, f in futs:
         r = f.result()
@@ -1499,6 +1530,7 @@ def family_concat_lz(ctx, j, quick, rnd, pool):
         for mt in (False, True):
             scns.append({"id": f"lzcat-{i}-{'mt' if mt else 'st'}", "fam": "read", "fmt": "lz", "mt": mt, "parts": parts, "seed": rnd.getrandbits(32),
                          "reads": rnd.choice([[4096], [1], [7, 4096, 3], [65536]]), "want_recs": False,
+                         "src_chunks": [] if mt else SRC_CHUNKS[2 + (i % (len(SRC_CHUNKS) - 2))],
                          "abstract": {"files": len(files), "members": len(a["allmembers"]), "out": a["out"]}})
     res = run_scenarios(scns)
     log(f"[impl] read/lz concat: {len(scns)} assembled inputs decoded by LZIPReader / LZIPReaderMT in {time.time()-t0:.1f}s")
@@ -1528,6 +1560,18 @@ def family_concat_lz(ctx, j, quick, rnd, pool):
 
 
 # --------------------------------------------------------------------------- readers consume exactly their stream (C16)
+def again_bad(r):
+    """After read() returned 0 once, further read() calls must return 0 again and leave the source where it was."""
+    ag = r.get("again")
+    if ag is None:
+        return None
+    if any(x != "ok0" for x in ag):
+        return f"read() after end of stream returned {ag}"
+    if r.get("consumed_after") != r.get("consumed"):
+        return f"read() after end of stream moved the source from {r.get('consumed')} to {r.get('consumed_after')}"
+    return None
+
+
 def judge_consume(j, s, r, predicted=None, source="grid"):
     j.nruns += 1
     if r["outcome"] in ("build_err", "panic", "bad_family"):
@@ -1549,6 +1593,9 @@ def judge_consume(j, s, r, predicted=None, source="grid"):
     elif r["consumed"] != end0:
         j.violation("C16", f"{fmt} reader ({base['src']}, {base['end']}) returned end of stream with the source at offset {r['consumed']}; the stream is "
                            f"{end0} bytes long and is followed by {r['input_len'] - end0} {trailing} bytes", dict(base, outcome="consumed"), rep)
+    elif again_bad(r):
+        j.violation("C16", f"{fmt} reader ({base['src']}) on a stream followed by {r['input_len'] - end0} {trailing} bytes: {again_bad(r)}",
+                    dict(base, outcome="reread"), rep)
     return None
 
 
@@ -1606,6 +1653,7 @@ def family_consume(ctx, j, quick, rnd, pool):
                 q.pop("cuts", None)
                 parts.append(q)
             scns.append({"id": f"cons-{i}-{trailing}", "fam": "read", "fmt": fmt, "multi": False, "parts": parts, "seed": rnd.getrandbits(32),
+                         "src_chunks": rnd.choice(SRC_CHUNKS),
                          "reads": rnd.choice([[4096], [1], [7, 4096, 3], [65536], [2], [1000, 1]]), "trailing": trailing})
     res = run_scenarios(scns)
     log(f"[impl] consume: {len(scns)} valid streams (x trailing kinds x read sizes) read to end of stream in {time.time()-t0:.1f}s")
@@ -1624,7 +1672,7 @@ def reader_events(s, r, valid):
     for x in r["recs"]:
         e = {"ev": "Rec"}
         for k, v in x.items():
-            if k in ("at", "fprops", "why", "first"):
+            if k in ("at", "fprops", "why", "first", "ctrls"):
                 continue
             e[k] = (False if v is None else v)
         if x["k"] == "BH":
@@ -1731,7 +1779,7 @@ def family_ref_to_ours(ctx, j, quick, rnd, pool):
                     if n > 10 and rnd.random() < 0.5:
                         p["cuts"] = sorted(rnd.sample(range(1, n), min(2, n - 1)))
                 scns.append({"id": f"ref-{k}", "fam": "read", "fmt": fmt, "multi": False, "parts": [p], "seed": rnd.getrandbits(32),
-                             "reads": rnd.choice([[4096], [1], [7, 4096, 3], [65536], [1000]]), "want_recs": fmt == "xz"})
+                             "reads": rnd.choice([[4096], [1], [7, 4096, 3], [65536], [1000]]), "want_recs": fmt in ("xz", "lzma2")})
                 k += 1
     # directed rows: incompressible input of >= 64 KiB (the reference emits uncompressed LZMA2 chunks of exactly 65 536 bytes,
     # size field 0xFFFF, which the crate's own encoder never produces), highly compressible input of several MiB (LZMA chunks of
@@ -1756,8 +1804,47 @@ def family_ref_to_ours(ctx, j, quick, rnd, pool):
         scns.append({"id": f"ref-big-{fmt}", "fam": "read", "fmt": fmt, "multi": False, "seed": 5,
                      "parts": [{"k": fmt, "src": "ref", "opt": dict({"preset": 1, "dict": 1 << 20}, **({"check": "crc64"} if fmt == "xz" else {})),
                                 "n": 5 << 20, "class": "zeros", "seed": 1}], "reads": [65536], "want_recs": fmt == "xz"})
+    # mixed compressibility with LZMA_SYNC_FLUSH at the segment boundaries: the reference then emits every kind of chunk header with
+    # zero high size bits - 0xE0 (first chunk), 0x01 / 0x02 (uncompressed), 0xC0 (new properties after an uncompressed first chunk),
+    # 0xA0 (state reset after an uncompressed chunk), 0x80 (plain) - the coverage is measured with the strict chunk walker below
+    shapes = [
+        [("text", 30000), ("random", 70000), ("text", 20000)],                 # e0 02 02 a0
+        [("random", 5000), ("text", 20000), ("text", 20000)],                  # 01 c0 80
+        [("text", 3000), ("text", 3000), ("random", 3000), ("lowent", 500), ("seq", 9000)],   # e0 80 02 a0 80
+        [("random", 3000), ("random", 3000), ("zeros", 60000), ("random", 100), ("text", 64000)],
+        [("text", 100), ("random", 66000), ("text", 1)],
+    ]
+    for fmt in ("lzma2", "xz"):
+        for si, segs in enumerate(shapes):
+            for preset in ((0, 6) if quick else (0, 1, 3, 6, 9)):
+                cuts, acc = [], 0
+                for (_, n) in segs[:-1]:
+                    acc += n
+                    cuts.append(acc)
+                opt = {"preset": preset, "dict": 1 << 20}
+                if fmt == "xz":
+                    opt["check"] = rnd.choice(list(CHECK_ID))
+                scns.append({"id": f"ref-mixed-{fmt}-{si}-{preset}", "fam": "read", "fmt": fmt, "multi": False, "seed": si * 16 + preset,
+                             "parts": [{"k": fmt, "src": "ref", "opt": opt, "n": acc + segs[-1][1], "class": "mixed", "segs": [list(x) for x in segs],
+                                        "syncs": cuts, "seed": 1000 + si}], "reads": rnd.choice([[4096], [1], [65536]]), "want_recs": True})
     res = run_scenarios(scns)
     log(f"[impl] liblzma -> ours: {len(scns)} reference-encoded streams decoded by the crate in {time.time()-t0:.1f}s")
+    # measured coverage of chunk-header kinds (control byte with zero high size bits) in the reference streams
+    seen = collections.defaultdict(set)
+    for s, r1 in zip(scns, res):
+        if s["parts"][0]["src"] != "ref":
+            continue
+        for x in r1.get("recs") or []:
+            if x.get("k") == "Chunk":
+                seen[s["fmt"]].add(x["ctrl"])
+            elif x.get("k") == "Data":
+                seen[s["fmt"]].update(x.get("ctrls") or [])
+    need = {0x01, 0x02, 0x80, 0xA0, 0xC0, 0xE0}
+    for fmt in ("lzma2", "xz"):
+        if not need <= seen[fmt]:
+            raise ToolError(f"reference grid ({fmt}) does not contain every chunk-header kind with zero high size bits: missing "
+                            f"{sorted(hex(c) for c in need - seen[fmt])}")
+    ctx.cov["reference_chunk_controls_seen"] = {fmt: sorted(hex(c) for c in v) for fmt, v in seen.items()}
     rruns = []
     for s, r1 in zip(scns, res):
         j.nruns += 1
@@ -1799,28 +1886,37 @@ def family_ref_to_ours(ctx, j, quick, rnd, pool):
 # --------------------------------------------------------------------------- MT part of C18 (reuses the lead's MT machinery)
 def family_mt_units(ctx, j, quick, rnd):
     """Unit sizes of the MT writers and unit counts of the MT readers under random schedules of the deterministic runtime:
-    the C18 verdicts of mtlib.judge (the other verdicts belong to C08 / C09 / C10 and are judged by those checks)."""
+    the C18 verdicts of mtlib.judge (the other verdicts belong to C08 / C09 / C10 and are judged by those checks). The
+    scenario shapes are the lead's (mtwriter.cfgs / mtplans.reader_cfgs): full and partial units, flushes, one small write
+    followed by one huge write crossing several unit boundaries (w-merged-*), readers over streams whose later units begin
+    with an uncompressed dictionary-reset chunk."""
     try:
         from . import mtlib
-        from checks import mtcommon, mtwriter
+        from checks import mtcommon, mtwriter, mtplans
     except Exception as e:          # the MT machinery is owned by the lead; degrade gracefully
         ctx.assumptions.append(f"MT part of C18 skipped: MT machinery not importable ({e})")
         return [], []
     scns = []
-    n = 12 if quick else 120
-    wrows = [("lzma2", 2, ["F", "F", "X"]), ("lzip", 2, ["F", "F", "F", "X"]), ("lzma2", 3, ["P", "F", "P", "F", "X"]),
-             ("lzip", 2, ["F", "P", "X"]), ("lzma2", 1, ["F", "F", "X"]), ("lzip", 3, ["P", "P", "F", "X"]), ("lzma2", 2, ["X"])]
-    for (kind, workers, calls) in wrows:
-        c = dict(fam=kind + "_writer", consts=mtwriter.consts(workers, calls), calls=calls)
+    n = 10 if quick else 100
+    wcfgs = [c for c in mtwriter.cfgs(True) if c["name"].startswith(("w-merged", "w-ffx", "w-partials", "w-midflush", "w-3w", "w-1w", "w-empty"))]
+    if not any(c["name"].startswith("w-merged") for c in wcfgs):
+        raise ToolError("the MT writer scenario shapes no longer contain w-merged-* (one small + one huge write)")
+    for c in wcfgs:
         for i in range(n):
-            scns.append(mtwriter.make_scn(c, f"c18-w-{kind}-{workers}-{''.join(calls)}-{i}", {"kind": "random", "seed": rnd.getrandbits(40)}))
-    rrows = [("lzma2", 2, ["I", "I", "I"]), ("lzma2", 2, ["I", "D", "I"]), ("lzma2", 3, ["I", "I", "D", "I"]), ("lzip", 2, ["M", "M", "M"]),
-             ("lzip", 3, ["M", "M"]), ("lzma2", 1, ["I"]), ("lzip", 2, ["M"])]
-    for (kind, workers, chunks) in rrows:
-        consts = mtlib.reader_consts(kind, workers, chunks)
+            scns.append(mtplans.make_scn(c, f"c18-{c['name']}-{i}", {"kind": "random", "seed": rnd.getrandbits(40)}))
+    rcfgs = mtplans.reader_cfgs([
+        ("lz2-3u", "lzma2", 2, ["I", "I", "I"], dict(), "rand"),
+        ("lz2-dep", "lzma2", 2, ["I", "D", "I"], dict(), "rand"),
+        ("lz2-unc", "lzma2", 2, ["I", "I", "I"], dict(extra=dict(unc=[1, 2])), "rand"),
+        ("lz2-unc0", "lzma2", 3, ["I", "I", "D", "I"], dict(extra=dict(unc=[0, 3])), "rand"),
+        ("lz2-1u", "lzma2", 1, ["I"], dict(), "rand"),
+        ("lzip-3m", "lzip", 2, ["M", "M", "M"], dict(), "rand"),
+        ("lzip-2m-3w", "lzip", 3, ["M", "M"], dict(), "rand"),
+        ("lzip-1m", "lzip", 2, ["M"], dict(), "rand"),
+    ])
+    for c in rcfgs:
         for i in range(n):
-            scns.append(mtcommon.scn_from_consts(kind + "_reader", consts, f"c18-r-{kind}-{workers}-{''.join(chunks)}-{i}",
-                                                 {"kind": "random", "seed": rnd.getrandbits(40)}))
+            scns.append(mtplans.make_scn(c, f"c18-{c['name']}-{i}", {"kind": "random", "seed": rnd.getrandbits(40)}))
     res = mtlib.run_scenarios(scns)
     for s, r1 in zip(scns, res):
         j.nruns += 1
